@@ -20,7 +20,7 @@ func TestVerif(t *testing.T) { sched.Main(t) }
 // C15 (H): every operation sequence on a real host.Set up to a depth, against a
 // reference model, with canonical-state de-duplication.
 //
-// alphabet  AddFresh(addr,type) | ReAdd(obj) | RemoveFresh(addr,type) | RemoveObj(obj) |
+// alphabet  AddFresh(addr,type) | ReAdd(obj) | RemoveFresh(addr,type) | RemoveObj(obj) | AddBatch/RemoveBatch(two hosts, both orders) |
 //           ReplaceAll(list) | MarkHealthy(obj) | MarkUnhealthy(obj)
 //           addr in {a,b}, type in {Main,Backup}, obj = any host object created so far (<= maxObjs)
 // bound     depth (quick 5, thorough 7)
@@ -40,8 +40,8 @@ func (o c15op) String() string {
 	switch o.Kind {
 	case "AddFresh", "RemoveFresh":
 		return fmt.Sprintf("%s(%s,%s)", o.Kind, o.Addr, Type(o.Typ))
-	case "ReplaceAll":
-		return fmt.Sprintf("ReplaceAll[%s]", o.List)
+	case "ReplaceAll", "AddBatch", "RemoveBatch":
+		return fmt.Sprintf("%s[%s]", o.Kind, o.List)
 	}
 	return fmt.Sprintf("%s(#%d)", o.Kind, o.Obj)
 }
@@ -177,6 +177,8 @@ func (w *c15world) pre(op c15op) string {
 		return "stale-object,addr-absent," + s
 	case "ReplaceAll":
 		return "any"
+	case "AddBatch", "RemoveBatch":
+		return "batch:" + op.List
 	}
 	return ""
 }
@@ -199,6 +201,24 @@ func (w *c15world) apply(op c15op) {
 		w.set.Remove(w.objs[op.Obj])
 		w.gone[op.Obj] = true
 		w.modelRemoveAddr(w.objs[op.Obj].Addr)
+	case "AddBatch", "RemoveBatch":
+		idx := parseList(w, op.List)
+		hs := make([]*Host, len(idx))
+		for k, i := range idx {
+			hs[k] = w.objs[i]
+		}
+		if op.Kind == "AddBatch" {
+			w.set.Add(hs...)
+			for _, i := range idx {
+				w.modelAdd(i)
+			}
+		} else {
+			w.set.Remove(hs...)
+			for _, i := range idx {
+				w.gone[i] = true
+				w.modelRemoveAddr(w.objs[i].Addr)
+			}
+		}
 	case "ReplaceAll":
 		idx := parseList(w, op.List)
 		hs := make([]*Host, len(idx))
@@ -368,6 +388,9 @@ func c15enabled(w *c15world, maxObjs int) []c15op {
 	if len(w.objs)+2 <= maxObjs {
 		for _, l := range c15lists {
 			ops = append(ops, c15op{Kind: "ReplaceAll", List: l})
+		}
+		for _, l := range []string{"aM,bM", "bM,aM", "aM,bB", "bB,aM"} {
+			ops = append(ops, c15op{Kind: "AddBatch", List: l}, c15op{Kind: "RemoveBatch", List: l})
 		}
 	}
 	for i := range w.objs {
